@@ -230,9 +230,18 @@ package server
 //@ func (*BgpServer).processRTCMembership$2
 //@   claims at-call
 // (the list handed to the peer in the withdraw branch is built by these appends alone)
-//@   at-call ^append(withdrawn, p) requires !peer.interestedIn(p)
+//@   at-call ^append(withdrawn, w) requires !peer.interestedIn(p)
+// ... and what is handed to the peer in that branch is a withdrawal (the wildcard scan yields the routes themselves)
+//@   at-call ^append(withdrawn, w) requires w.IsWithdraw
 //@   at-call ^peer.updateRoutes(withdrawn...) requires path.IsWithdraw
 //@   at-call ^sendfsmOutgoingMsg(peer, withdrawn) requires called(updateRoutes)
+
+// from C17 "every ... import-RT ... change triggers exactly the advertisements and withdrawals needed": a route that
+// can no longer be imported into the neighbour's VRF replaces one that could (and was advertised): the neighbour is
+// sent the withdrawal, the function does not just drop the change (vrf is in scope at the returns of the VRF block)
+//@ func (*BgpServer).prePolicyFilterpath
+//@   claims at-return
+//@   at-return requires ok && old != nil && table.CanImportToVrf(vrf, old) ==> ret0 != nil
 
 // =============================================================================================
 // C12 - graceful restart: the per-call parts (DESIGN.md 4 C12; every "exactly when <timer/event order>" clause
